@@ -227,3 +227,93 @@ class Repo:
                         if isinstance(s, ast.Attribute) and s.attr == attr and isinstance(s.ctx, (ast.Store, ast.Del)):
                             out.append(q)
         return sorted(set(out))
+
+
+# ---------------------------------------------------------------------------------------------------------------
+# robustness of the specification against renamed locals: invariants name locals of the verified function; when a
+# function of the current tree has the same *shape* as on the baseline tree (identical AST up to the names of its
+# parameters and locals) the baseline names are mapped to the current ones position by position (alpha-renaming)
+# ---------------------------------------------------------------------------------------------------------------
+def _strip(node: ast.AST) -> ast.AST:
+    import copy
+
+    n = copy.deepcopy(node)
+    for x in ast.walk(n):
+        if isinstance(x, (ast.FunctionDef, ast.AsyncFunctionDef, ast.ClassDef)) and x.body and isinstance(x.body[0], ast.Expr) and isinstance(x.body[0].value, ast.Constant) \
+                and isinstance(x.body[0].value.value, str):
+            x.body = x.body[1:] or [ast.Pass()]
+        if isinstance(x, (ast.FunctionDef, ast.AsyncFunctionDef)):
+            x.returns = None
+        if isinstance(x, ast.arg):
+            x.annotation = None
+        if isinstance(x, ast.AnnAssign):
+            x.annotation = ast.Constant(value=None)
+    return n
+
+
+def local_names(node: ast.AST) -> List[str]:
+    """parameters and locally bound names in order of first occurrence (depth-first, source order)"""
+    out: List[str] = []
+    bound = set()
+    for x in ast.walk(node):
+        if isinstance(x, ast.arg):
+            bound.add(x.arg)
+        elif isinstance(x, ast.Name) and isinstance(x.ctx, (ast.Store, ast.Del)):
+            bound.add(x.id)
+        elif isinstance(x, ast.ExceptHandler) and x.name:
+            bound.add(x.name)
+
+    def visit(n):
+        if isinstance(n, ast.arg) and n.arg in bound and n.arg not in out:
+            out.append(n.arg)
+        if isinstance(n, ast.Name) and n.id in bound and n.id not in out:
+            out.append(n.id)
+        if isinstance(n, ast.ExceptHandler) and n.name and n.name not in out:
+            out.append(n.name)
+        for c in ast.iter_child_nodes(n):
+            visit(c)
+
+    visit(node)
+    return out
+
+
+def shape_hash(node: ast.AST) -> str:
+    n = _strip(node)
+    names = set(local_names(n))
+    for x in ast.walk(n):
+        if isinstance(x, ast.arg) and x.arg in names:
+            x.arg = "_"
+        elif isinstance(x, ast.Name) and x.id in names:
+            x.id = "_"
+        elif isinstance(x, ast.ExceptHandler) and x.name:
+            x.name = "_"
+    return hashlib.sha256(ast.dump(n).encode()).hexdigest()[:16]
+
+
+_BASELINE_LOCALS = None
+
+
+def baseline_locals() -> Dict[str, Dict]:
+    global _BASELINE_LOCALS
+    if _BASELINE_LOCALS is None:
+        import json
+
+        p = os.path.join(os.path.dirname(os.path.dirname(os.path.abspath(__file__))), "baseline_obligations.json")
+        try:
+            _BASELINE_LOCALS = json.load(open(p)).get("locals", {})
+        except Exception:
+            _BASELINE_LOCALS = {}
+    return _BASELINE_LOCALS
+
+
+def alias_of(fi: "FuncInfo", baseline_name: str) -> Optional[str]:
+    """the current name of the local that was called `baseline_name` when the specification was written, if the function
+    only differs from the baseline by the names of its locals; None otherwise"""
+    b = baseline_locals().get(fi.qualname)
+    if not b or b.get("shape") != shape_hash(fi.node):
+        return None
+    cur = local_names(_strip(fi.node))
+    old = b.get("locals", [])
+    if len(cur) != len(old) or baseline_name not in old:
+        return None
+    return cur[old.index(baseline_name)]
